@@ -16,7 +16,18 @@ import (
 var langTags = map[string]language.Tag{
 	"en": language.English, "ja": language.Japanese, "und": language.Und, "fr": language.French, "de": language.German,
 	"zh": language.Chinese, "ko": language.Korean, "es": language.Spanish, "ru": language.Russian, "ar": language.Arabic,
+	// tags whose LANGUAGE is neither English nor Japanese although region / script point elsewhere
+	"und-JP": language.MustParse("und-JP"), "und-Jpan": language.MustParse("und-Jpan"), "und-Hira": language.MustParse("und-Hira"),
+	"und-US": language.MustParse("und-US"), "und-Latn-JP": language.MustParse("und-Latn-JP"), "fr-JP": language.MustParse("fr-JP"),
+	"zh-Hant-JP": language.MustParse("zh-Hant-JP"), "ko-KR": language.MustParse("ko-KR"), "pt-BR": language.MustParse("pt-BR"),
+	"de-CH": language.MustParse("de-CH"), "fr-CA": language.MustParse("fr-CA"), "mul": language.MustParse("mul"),
+	"tlh": language.MustParse("tlh"), "zh-Hans-US": language.MustParse("zh-Hans-US"), "jv": language.MustParse("jv"), "enm": language.MustParse("enm"),
 }
+
+// regional variants of English / Japanese: their names are unspecified (not validated), but using
+// them must not influence what later reports in "en" / "ja" show
+var regionalTags = []language.Tag{language.MustParse("ja-JP"), language.MustParse("ja-Latn"), language.MustParse("en-GB"),
+	language.MustParse("en-US"), language.MustParse("ja-JP-u-ca-japanese"), language.MustParse("en-001")}
 
 var severityConsts = []codeConst{{"None", int(m3.SeverityNone)}, {"Low", int(m3.SeverityLow)}, {"Medium", int(m3.SeverityMedium)},
 	{"High", int(m3.SeverityHigh)}, {"Critical", int(m3.SeverityCritical)}}
@@ -68,6 +79,13 @@ func cmdNames(args []string) {
 	commonFlags(fs)
 	fs.Parse(args)
 	rec := NewRecorder()
+	// regional variants of en / ja are asked first: unspecified themselves, they must not change what follows
+	for _, tag := range regionalTags {
+		for i, nm := range nameMetas {
+			nm.Title(tag)
+			nm.ValueOf(i%4, tag)
+		}
+	}
 	modOf := map[int]int{14: 0, 15: 1, 16: 2, 17: 3, 18: 4, 19: 5, 20: 6, 21: 7}
 	calls := 0
 	for lname, tag := range langTags {
@@ -215,13 +233,21 @@ func cmdReport(args []string) {
 	for i := range recs {
 		recs[i] = NewRecorder()
 	}
-	langs := []string{"en", "ja", "und", "fr", "de", "zh"}
+	langs := []string{"en", "ja", "und", "fr", "de", "zh", "und-JP", "fr-CA", "ko-KR", "zh-Hant-JP"}
 	nb := v3BaseCount()
+	// prologue: reports in regional variants of en / ja first (history: they must not poison later ones)
+	if em, err := m3.NewEnvironmental().Decode("CVSS:3.1/AV:A/AC:H/PR:L/UI:N/S:C/C:L/I:H/A:L/E:P/RL:O/RC:U/CR:L/IR:M/AR:L/MAV:P/MAC:L/MPR:N/MUI:R/MS:C/MC:H/MI:H/MA:H"); err == nil {
+		for _, tag := range regionalTags {
+			report.NewEnvironmental(em, report.WithOptionsLanguage(tag))
+			report.NewTemporal(em.TemporalMetrics(), report.WithOptionsLanguage(tag))
+			report.NewBase(em.BaseMetrics(), report.WithOptionsLanguage(tag))
+		}
+	}
 	parallelFor(nb*2, workers, func(w, i int) {
 		var v v3Vec
 		v3SetFromIndex(&v, 0, v3NBase, i/2)
 		s := v3Join(v3Versions[i%2].Label, v3Tokens(&v, 8, 0))
-		for _, ln := range []string{"en", "ja", langs[2+i%4]} {
+		for _, ln := range []string{"en", "ja", langs[2+i%(len(langs)-2)]} {
 			if ev := buildRepEvent('B', ln, s); ev != nil {
 				recs[w].Add(evBody(ev), "report.NewBase")
 			}
